@@ -831,6 +831,8 @@ func (vm *vm) handleThrow(arg interface{}) *Exception {
 			}
 		}
 		_ = vm.restoreStacks(tf.iterLen, tf.refLen)
+		// closing the iterators runs script code which may have grown (reallocated) the try stack
+		tf = &vm.tryStack[len(vm.tryStack)-1]
 
 		if tf.catchPos == tryPanicMarker {
 			break
